@@ -246,8 +246,131 @@ Proof.
   destruct (check_free c st (array_mem d) 7) as [s1 r1]. simpl in Ha. unfold bindR. destruct r1; simpl; exact Ha.
 Qed.
 
+(* ---------- SWAP ---------- *)
+Lemma obj_ok_arr_Rel X st st' n i : RelX c X st st' -> obj_ok c st (OArr n i) -> obj_ok c st' (OArr n i).
+Proof.
+  intros H (Hi & d & els & Hl & Hlt). destruct (r_arrs _ _ _ _ H n d els Hl) as (els' & Hl' & HF).
+  split; [exact Hi|]. exists d, els'. split; [exact Hl'|]. rewrite <- (Forall2_length _ _ _ HF). exact Hlt.
+Qed.
+
+Definition slot_ok (st : state) (l : lval) : Prop :=
+  match l with LvS _ => True | LvA n i => obj_ok c st (OArr n i) /\ is_strname n = true end.
+
+Definition sw_get (st : state) (l : lval) : sval :=
+  match l with
+  | LvS n => match lookup n (scal st) with Some v => v | None => szero n end
+  | LvA n i => SStr (arr_ptr st n (Z.to_nat i))
+  end.
+Definition sw_put (s : state) (l : lval) (v : sval) : state :=
+  match l, v with
+  | LvS n, _ => set_scal s (upsert n v (scal s))
+  | LvA n i, SStr p => set_loc s (LArr n (Z.to_nat i)) p
+  | LvA _ _, _ => s
+  end.
+
+(* a value that is acceptable in a slot of the type of name n *)
+Definition val_ok (st : state) (n : Z) (v : sval) : Prop :=
+  (is_strname n = true -> exists p, v = SStr p /\ ptr_ok c st p /\ Jp c st p) /\
+  (is_strname n = false -> exists z, v = SNum z).
+
+Lemma sw_get_ok st l : Good c st -> slot_ok st l -> val_ok st (lv_name l) (sw_get st l).
+Proof.
+  intros G Hl. destruct l as [n|n i]; simpl in *.
+  - destruct (lookup n (scal st)) as [v|] eqn:E.
+    + split; intros Hn; [exact (g_scal _ _ G n v E Hn)|exact (g_scal_num _ _ G n v E Hn)].
+    + unfold szero. split; intros Hn; rewrite Hn; eauto. exists (0, 0). auto using zero_ptr_ok, zero_Jp.
+  - destruct Hl as [(Hi0 & d & els & Hlk & Hlt) Hs]. split; [|intros Hn; congruence]. intros _.
+    unfold arr_ptr. rewrite Hlk. destruct (g_arrs _ _ G n d els Hlk) as [_ B]. eexists. split; [reflexivity|]. apply B, nth_In, Hlt.
+Qed.
+
+Lemma val_ok_same st st' n v : strs st' = strs st -> tmp st' = tmp st -> val_ok st n v -> val_ok st' n v.
+Proof.
+  intros Hs Ht [A B]. split; [|exact B]. intros Hn. destruct (A Hn) as (p & E & H1 & H2). exists p.
+  split; [exact E|]. split; [eapply ptr_ok_same; eauto|eapply Jp_same_tmp; eauto].
+Qed.
+
+Lemma sw_put_good st l v : Good c st -> idle st -> slot_ok st l -> val_ok st (lv_name l) v ->
+  Good c (sw_put st l v) /\ idle (sw_put st l v) /\ strs (sw_put st l v) = strs st /\ tmp (sw_put st l v) = tmp st /\
+  (forall l', slot_ok st l' -> slot_ok (sw_put st l v) l').
+Proof.
+  intros G Hi Hl [Hv1 Hv2]. destruct l as [n|n i]; simpl in *.
+  - destruct (restore_scalar_good c st n v G Hv1 Hv2) as [G' _].
+    split; [exact G'|]. unfold idle in *. simpl. spl; auto; try tauto; try (intros l' H; exact H).
+  - destruct Hl as [(Hi0 & d & els & Hlk & Hlt) Hs]. destruct (Hv1 Hs) as (p & -> & A & B).
+    split; [eapply Good_set_arr_elem; eauto|]. simpl. rewrite Hlk. unfold idle in *. simpl. spl; auto; try tauto.
+    intros [m|m j]; simpl; [auto|]. intros [(Hj0 & d1 & els1 & Hl1 & Hlt1) Hm]. split; [|exact Hm]. split; [exact Hj0|].
+    destruct (Z.eq_dec m n) as [->|Hne].
+    + rewrite Hlk in Hl1. inversion Hl1; subst. exists d1, (update_nth (Z.to_nat i) p els1).
+      rewrite lookup_upsert_same. split; [reflexivity|]. rewrite length_update_nth. exact Hlt1.
+    + exists d1, els1. rewrite lookup_upsert_other by assumption. auto.
+Qed.
+
+Lemma val_ok_type st n m v : nty n = nty m -> val_ok st n v -> val_ok st m v.
+Proof. unfold val_ok, is_strname. intros ->. auto. Qed.
+
+(* Scalars.set(name) / check_dim on a swap operand: the slot exists afterwards *)
+Lemma swap_operand st l (must_exist : bool) : Good c st -> idle st ->
+  let '(s, r) := (match l with
+                  | LvS n => if must_exist then (if mem_key n (scal st) then retR st tt
+                                                 else doR (st2, _) <- set_scalar c st n None; errR st2 5)
+                             else set_scalar c st n None
+                  | LvA n i => check_dim c st n i
+                  end) in
+  Good c s /\ idle s /\ Rel c st s /\ (r = Ok tt -> slot_ok s l).
+Proof.
+  intros G Hi. destruct l as [n|n i].
+  - assert (Hset : let '(s, r) := set_scalar c st n None in Good c s /\ idle s /\ Rel c st s).
+    { pose proof (alloc_scalar_good c st n G) as H. pose proof (alloc_scalar_active c st n G) as Ha.
+      change (set_scalar c st n None) with (alloc_scalar c st n). destruct (alloc_scalar c st n) as [s r]. simpl in Ha.
+      destruct H as (G' & _ & R' & _). spl; auto. eapply Rel_idle; eassumption. }
+    destruct must_exist.
+    + destruct (mem_key n (scal st)); [unfold retR; spl; auto using Rel_refl; intros; exact I|].
+      destruct (set_scalar c st n None) as [s r]. destruct Hset as (a1 & a2 & a3).
+      unfold bindR. destruct r; unfold errR; spl; auto; intros; discriminate.
+    + destruct (set_scalar c st n None) as [s r]. destruct Hset as (a1 & a2 & a3). spl; auto. intros; exact I.
+  - pose proof (check_dim_good c st n i G) as H. pose proof (check_dim_active st n i G) as Ha.
+    assert (Hguard : forall s r, check_dim c st n i = (s, r) -> r = Ok tt -> is_strname n = true).
+    { intros s r E Er. unfold check_dim in E. destruct (is_strname n); [reflexivity|]. simpl in E. inversion E; subst; discriminate. }
+    destruct (check_dim c st n i) as [s r] eqn:E. simpl in Ha. destruct H as (G' & _ & R' & Hok & _).
+    spl; auto; [eapply Rel_idle; eassumption|]. intros Er. split; [apply Hok, Er|eapply Hguard; eauto].
+Qed.
+
+Lemma slot_ok_Rel X st st' l : RelX c X st st' -> slot_ok st l -> slot_ok st' l.
+Proof. intros H. destruct l as [n|n i]; simpl; auto. intros [A B]. split; [eapply obj_ok_arr_Rel; eauto|exact B]. Qed.
+
+Lemma exec_swap_inv fuel d a b st : SInv st -> SInv (fst (exec c fuel d (SSwap a b) st)).
+Proof.
+  intros [G Hi]. cbn [exec]. destruct (negb (nty (lv_name a) =? nty (lv_name b))) eqn:Ety; [simpl; split; assumption|].
+  apply negb_false_iff, Z.eqb_eq in Ety.
+  pose proof (swap_operand st a false G Hi) as H1.
+  assert (E1 : preallocate c st a = match a with LvS n => set_scalar c st n None | LvA n i => check_dim c st n i end)
+    by (destruct a; reflexivity).
+  rewrite E1. cbv beta iota in H1.
+  destruct (match a with LvS n => set_scalar c st n None | LvA n i => check_dim c st n i end) as [st1 r1].
+  destruct H1 as (G1 & I1 & R1 & Ha). unfold bindR at 1.
+  destruct r1 as [[]|?|?|]; try (simpl; split; assumption). specialize (Ha eq_refl).
+  pose proof (swap_operand st1 b true G1 I1) as H2. cbv beta iota in H2.
+  destruct (match b with
+            | LvS n => if mem_key n (scal st1) then retR st1 tt else doR (st2, _) <- set_scalar c st1 n None; errR st2 5
+            | LvA n i => check_dim c st1 n i
+            end) as [st2 r2].
+  destruct H2 as (G2 & I2 & R2 & Hb). unfold bindR.
+  destruct r2 as [[]|?|?|]; try (simpl; split; assumption). specialize (Hb eq_refl).
+  assert (Ha2 : slot_ok st2 a) by (eapply slot_ok_Rel; eauto).
+  (* the two assignments *)
+  change (fst (retR ?s tt)) with s. unfold retR. simpl fst.
+  pose proof (sw_get_ok st2 a G2 Ha2) as Va. pose proof (sw_get_ok st2 b G2 Hb) as Vb.
+  fold (sw_get st2 a). fold (sw_get st2 b).
+  assert (Vb' : val_ok st2 (lv_name a) (sw_get st2 b)) by (eapply val_ok_type; [symmetry; exact Ety|exact Vb]).
+  destruct (sw_put_good st2 a (sw_get st2 b) G2 I2 Ha2 Vb') as (G3 & I3 & S3 & T3 & K3).
+  assert (Va' : val_ok (sw_put st2 a (sw_get st2 b)) (lv_name b) (sw_get st2 a)).
+  { eapply val_ok_same; [exact S3|exact T3|]. eapply val_ok_type; [exact Ety|exact Va]. }
+  destruct (sw_put_good _ b (sw_get st2 a) G3 I3 (K3 b Hb) Va') as (G4 & I4 & _).
+  split; [exact G4|exact I4].
+Qed.
+
 Definition simple (s : stmt) : Prop :=
-  match s with SLet _ _ | SErase _ | SDim _ _ | SClear _ | SDef _ _ _ => True | _ => False end.
+  match s with SLet _ _ | SSwap _ _ | SErase _ | SDim _ _ | SClear _ | SDef _ _ _ => True | _ => False end.
 
 Lemma def_params_EVN : forall ps st, Good c st -> idle st ->
   EVN (fun _ (_ : unit) => True) st
@@ -269,6 +392,8 @@ Proof.
     destruct (exec_let fuel l e st G Hi) as [H1 H2]. destruct d.
     + unfold EVN in H2. destruct (exec c fuel true (SLet l e) st). simpl. split; tauto.
     + unfold EVN in H1. destruct (exec c fuel false (SLet l e) st). simpl. split; tauto.
+  - (* SWAP *)
+    apply exec_swap_inv. split; assumption.
   - (* ERASE *)
     cbn [exec]. pose proof (erase_good c st n G Hi) as H. destruct (erase st n). simpl. split; tauto.
   - (* DIM *)
